@@ -133,6 +133,11 @@ fn chains(env: &Env, item: &Item) -> (Chain, Chain, u64) {
         (3, Act::Mine('B')),
         (5, Act::Mine('A')),
         (7, Act::Move('A', 'A')),
+        // a typed cell created on the trunk by the second transaction of block 8 ...
+        (8, Act::Move('A', 'A')),
+        (8, Act::Typed('A')),
+        // ... and spent by the first transaction of the (always abandoned) old tip
+        (l, Act::Untype('A', 'B')),
     ];
     for n in (fork_at.saturating_sub(1)).max(8)..=l {
         match n % 3 {
@@ -164,7 +169,7 @@ pub(crate) fn run(opts: &Opts, report: &mut Report) {
     for last_n in if thorough { vec![2u64, 3] } else { vec![2u64] } {
         for depth in 1..=(last_n + 2) {
             for growth in if thorough { (1..=(last_n + 2)).collect::<Vec<_>>() } else { vec![1, last_n, last_n + 2] } {
-                for set in if thorough { vec![0usize, 1, 2] } else { vec![0usize, 1] } {
+                for set in if thorough { vec![0usize, 1, 2, 3] } else { vec![1usize, 3] } {
                     items.push(Item { last_n, depth, growth, set });
                 }
             }
@@ -179,7 +184,8 @@ pub(crate) fn run(opts: &Opts, report: &mut Report) {
         let regs: Vec<Reg> = match item.set {
             0 => vec![Reg { script: s.a.clone(), is_lock: true, start: 0 }],
             1 => vec![Reg { script: s.a.clone(), is_lock: true, start: 0 }, Reg { script: s.b.clone(), is_lock: true, start: 0 }],
-            _ => vec![Reg { script: s.b.clone(), is_lock: true, start: 0 }, Reg { script: s.a.clone(), is_lock: true, start: 6 }],
+            2 => vec![Reg { script: s.b.clone(), is_lock: true, start: 0 }, Reg { script: s.a.clone(), is_lock: true, start: 6 }],
+            _ => vec![Reg { script: s.t.clone(), is_lock: false, start: 0 }, Reg { script: s.b.clone(), is_lock: true, start: 0 }],
         };
         let name = format!("lastN{}/depth{}/growth{}/set{}", item.last_n, item.depth, item.growth, item.set);
         let sc = ForkScenario {
